@@ -65,6 +65,11 @@ var sizes = []sizeSpec{
 	// preserveAspectRatio="none": the viewBox is stretched to the viewport, each axis with its own factor
 	{`width="100mm" height="60mm" viewBox="10 20 100 30" preserveAspectRatio="none"`, 100, 60, scale(1/pxmm, 2/pxmm).mul(translate(-10, -20)), true, "stretched viewBox with offset (y doubled)", 100, 30},
 	{`width="100mm" height="60mm" viewBox="-5 8 50 60" preserveAspectRatio="none"`, 100, 60, scale(2/pxmm, 1/pxmm).mul(translate(5, -8)), true, "stretched viewBox with offset (x doubled)", 50, 60},
+	// a percentage as the size of the outermost svg: there is no parent viewport, the reader takes that
+	// side from the viewBox (in px); the other side is absolute and differs from the viewBox's
+	{`width="100%" height="120" viewBox="0 0 100 60" preserveAspectRatio="none"`, 100 * pxmm, 120 * pxmm, scale(1, 2), true, "width a percentage, height absolute", 100, 60},
+	{`width="50mm" height="100%" viewBox="0 0 100 60" preserveAspectRatio="none"`, 50, 60 * pxmm, scale(0.5/pxmm, 1), true, "height a percentage, width absolute", 100, 60},
+	{`width="100%" height="100%" viewBox="0 0 100 60"`, 100 * pxmm, 60 * pxmm, ident, true, "both sides percentages", 100, 60},
 }
 
 type xf struct {
@@ -627,7 +632,7 @@ func Prop() *fw.Property {
 	return &fw.Property{
 		ID:    "C19",
 		Level: "model_checking",
-		Rule: "every document of the grammar {9 size/viewBox forms (incl. stretched viewBoxes with an offset under preserveAspectRatio=none)} x {16 transform lists (space and comma separated, white space inside, rotate about a point after other transforms), nested up to 2} x {11 shapes} x {18 style sources (presentation attributes in both orders, style attribute, inherited from g, class/id CSS rules, colour syntaxes)} is parsed by ParseSVG; " +
+		Rule: "every document of the grammar {12 size/viewBox forms (incl. stretched viewBoxes with an offset under preserveAspectRatio=none, percentages as the size of the root)} x {16 transform lists (space and comma separated, white space inside, rotate about a point after other transforms), nested up to 2} x {11 shapes} x {18 style sources (presentation attributes in both orders, style attribute, inherited from g, class/id CSS rules, colour syntaxes)} is parsed by ParseSVG; " +
 			"an independent evaluator of the SVG semantics for exactly this grammar (viewport/viewBox mapping, right-to-left transform composition, shape-to-path equivalences of SVG 1.1 ch.9, cascade: presentation attribute < CSS rule < style attribute, initial values) gives the expected canvas size, geometry in mm (y up) and computed style; compared with the layer the canvas replays (dense two-sided Hausdorff distance, paints, effective stroke width, cap, join, miter limit)",
 		Assumptions: []string{
 			"grammar as listed; text, gradients, markers, fill-rule, opacity, preserveAspectRatio attributes are outside it",
